@@ -230,6 +230,10 @@ pub mod time {
         requires -9999 <= y <= 9999
         ensures date_min() <= #[trigger] spec_jan1(y) < spec_jan1(y + 1) <= date_max() + 1
     { admit(); }
+    pub broadcast proof fn axiom_year_bounds(d: int)
+        requires date_min() <= d <= date_max()
+        ensures -9999 <= #[trigger] spec_year(d) <= 9999
+    { admit(); }
     pub broadcast proof fn axiom_date_range(d: Date)
         ensures date_min() <= #[trigger] d@ <= date_max()
     { admit(); }
